@@ -174,7 +174,7 @@ CLAIMED = {
              "[a_(n-1), a_n)), C09_target_interval_of_run (read off a run of the generation model via C07_stop_rule), C09_block_law_normalised (block probabilities "
              "F(a_n)-F(a_(n-1)) telescope), C07_one_draw (one independent draw per object), C09_parameters (documented parameter order on the model parser, six kernel-evaluated instances) and C09_parameter_order (the same for EVERY pair of written numerals of the "
              "literal syntax, all six families: written order = parameter order, no family taken for another; C09_parameter_order_nat: unconditionally for all natural numbers "
-             "in decimal digits). The check "
+             "in decimal digits; C09_parameter_order_decimal: unconditionally for all plain decimal literals ddd.fff). The check "
              "feeds a grid of quantiles through a scripted generator into the real generation of linear chains (1-2 blocks) and requires every block size to be the one "
              "the documented law's closed-form quantile assigns.",
         note="C09_numeric_partial: that SciPy's draw follows the declared law is tied deterministically to closed-form quantiles (C11's grid), not proved. For laws with atoms "
